@@ -850,9 +850,9 @@ fn cli_body(case: &Case) -> CheckResult {
       dir.write("rules/r.yml", b"id: no-console\nlanguage: JavaScript\nrule: {pattern: console.log($A)}\n");
       dir.write("tests/t-test.yml", case.yaml.as_bytes());
       // every other document also exercises the snapshot path: an existing snapshot directory with
-      // a snapshot of this rule, one whose test case is gone and one that is not a snapshot at all
+      // a (stale) snapshot of this rule, one whose test case is gone and one that is not a snapshot at all
       if case.yaml.len() % 2 == 0 {
-        dir.write("tests/__snapshots__/no-console-snapshot.yml", b"id: no-console\nsnapshots:\n  console.log(a):\n    labels:\n    - source: console.log(a)\n      style: primary\n      start: 0\n      end: 14\n");
+        dir.write("tests/__snapshots__/no-console-snapshot.yml", b"id: no-console\nsnapshots:\n  console.log(a):\n    labels:\n    - source: console.log(a)\n      style: primary\n      start: 0\n      end: 13\n");
         dir.write("tests/__snapshots__/gone-snapshot.yml", b"id: gone\nsnapshots:\n  x:\n    labels: []\n");
         dir.write("tests/__snapshots__/junk-snapshot.yml", case.yaml.as_bytes());
         cli::sgv_once(&["test", "-U"], &dir.path, None, limit)
